@@ -297,6 +297,9 @@ Weights ==
                             "mangetchild", "manget">>
     [] Profile = "gcrefs" -> <<"pushblob", "pushblob", "manput", "manput", "manput", "manput", "manput", "mandel", "mandel",
                                "gcrefs", "gcsubj", "gcsubj", "gcsubj", "age", "pushmanblob", "pushmanblob", "restart">>
+    \* referrers pushed by digest (untagged) next to tagged ones, collections in between
+    [] Profile = "gcrefs2" -> <<"pushblob", "pushblob", "manputdig", "manputdig", "manputdig", "manput", "manput", "mandel",
+                                "gcrefs", "gcrefs", "gcrefs", "restart">>
     [] Profile = "gcpass" -> <<"pushblob", "pushblob", "manput", "manput", "manput", "manput", "mandel", "blobdel",
                                "gcpass", "gcpass", "age", "age", "mkcorrupt">>
     [] Profile = "sess" -> <<"uppost", "uppost", "uppatch", "uppatch", "uppatch", "upput", "upput", "sessbad", "sessbad",
